@@ -144,7 +144,9 @@ fn single(kind: &str, text: String) -> Case {
 pub fn make_case(seed: u64, index: u64, corpus: &Corpus) -> Case {
     let mut rng = Rng::for_case(seed, 0xC08, index);
     let pick = rng.below(100);
-    let mut case = if pick < 12 {
+    let mut case = if index % 6 == 5 {
+        grammar_case(&mut rng)
+    } else if pick < 12 {
         single("byte_soup", soup::byte_soup(&mut rng, 4096))
     } else if pick < 30 {
         single("token_soup", soup::token_soup(&mut rng, 4096))
@@ -205,6 +207,30 @@ pub fn make_case(seed: u64, index: u64, corpus: &Corpus) -> Case {
         }
     }
     case
+}
+
+/// Grammar-generated programs - valid, and invalid by exactly one structural or token mutation
+/// (typed executable programs, resource / pipeline declaration programs, multi-pipeline files)
+fn grammar_case(rng: &mut Rng) -> Case {
+    let (family, text) = match rng.below(3) {
+        0 => {
+            let cfg = crate::gen::prog::Config {
+                max_functions: 4,
+                max_statements: 5,
+                max_expr_depth: 3,
+                ..Default::default()
+            };
+            ("prog", crate::gen::prog::generate(rng, cfg).render())
+        }
+        1 => ("decl", crate::gen::decl::generate(rng, 6, 2).text),
+        _ => ("pipelines", crate::checks::c17::gen::generate(rng, true).text),
+    };
+    if rng.chance(1, 4) {
+        single(&format!("grammar:{}:valid", family), text)
+    } else {
+        let (mutated, how) = soup::mutate_structure(rng, &text);
+        single(&format!("grammar:{}:{}", family, how), mutated)
+    }
 }
 
 fn first_pipeline_name(text: &str) -> String {
